@@ -16,6 +16,7 @@ STRINGS = [
     (5500999, "five %08X %08X %08X %08X %08X", "d.cpp(55)"),
     (4400111, "battery at 100%%", "e.cpp(44)"),
     (3300222, "no args here", "f.cpp(33)"),
+    (2200777, "state a||b reached, mask %08X||%08X", "g.cpp(22)"),      # the text itself contains the column separator
 ]
 
 
